@@ -40,24 +40,25 @@ def _syms(e, cache):
 
 
 def relevant_facts(facts, seeds, cache):
-    fs = [(f, _syms(f, cache)) for f in facts]
+    defines = ctx().defines
+    fs = [(f, _syms(f, cache), defines.get(f.get_id())) for f in facts]
     cur = set(seeds)
     chosen = [False] * len(fs)
     changed = True
     while changed:
         changed = False
-        for i, (f, s) in enumerate(fs):
-            if not chosen[i] and (s & cur):
+        for i, (f, s, d) in enumerate(fs):
+            if not chosen[i] and ((d & cur) if d else (s & cur)):
                 chosen[i] = True
                 if not s <= cur:
                     cur |= s
                 changed = True
-    return [f for (f, _), c in zip(fs, chosen) if c], cur
+    return [f for (f, _, _), c in zip(fs, chosen) if c], cur
 
 
 def to_smt2(ob, facts, cache, extra_axioms=True):
     seeds = _syms(ob.hyp, cache) | _syms(ob.goal, cache)
-    rel, cur = relevant_facts(facts, seeds, cache)
+    rel, cur = relevant_facts(facts[: getattr(ob, "stamp", len(facts))], seeds, cache)
     s = z3.Solver()
     for f in rel:
         s.add(f)
@@ -67,6 +68,10 @@ def to_smt2(ob, facts, cache, extra_axioms=True):
                 s.add(a)
         if "log" in cur or "exp" in cur:
             for a in npmodel.explog_axioms():
+                s.add(a)
+        if "rnd" in cur:
+            from .vals import rnd_axioms
+            for a in rnd_axioms():
                 s.add(a)
     s.add(ob.hyp)
     s.add(z3.Not(ob.goal))
@@ -78,24 +83,65 @@ def _check_z3(args):
     smt2, timeout_ms, seed, want_model = args
     t0 = time.time()
     try:
-        s = z3.Solver()
-        s.set("timeout", timeout_ms)
-        s.set("random_seed", seed)
-        s.from_string(smt2)
-        r = s.check()
-        res = str(r)
+        has_q = "(forall" in smt2 or "(exists" in smt2
         model = None
         reason = None
-        if r == z3.sat and want_model:
-            m = s.model()
-            model = {}
-            for d in m.decls():
-                try:
-                    model[d.name()] = str(m[d])[:400]
-                except Exception:
-                    pass
-        if r == z3.unknown:
-            reason = s.reason_unknown()
+
+        def run(opts, to):
+            s = z3.Solver()
+            s.set("timeout", to)
+            s.set("random_seed", seed)
+            for k, v in opts.items():
+                s.set(k, v)
+            s.from_string(smt2)
+            return s, s.check()
+
+        if not has_q:
+            s, r = run({}, timeout_ms)
+            res = str(r)
+            if r == z3.unknown:
+                reason = s.reason_unknown()
+        else:
+            # Quantified hypotheses: a small portfolio.  'unsat' from any configuration is a proof.  When none proves the
+            # goal and E-matching saturates without a refutation (z3: unknown / "incomplete quantifiers"), the proof has
+            # failed and z3's candidate model is the counter-model (as in Boogie/Dafny): reported as sat, flagged.
+            short = max(2000, min(6000, timeout_ms // 3))
+            res = "unknown"
+            s, r = run({"smt.mbqi": False}, short)
+            if r == z3.unsat:
+                res = "unsat"
+            elif r == z3.sat:
+                res = "sat"
+            else:
+                s2, r2 = run({}, short)
+                if r2 == z3.unsat:
+                    res = "unsat"
+                elif r2 == z3.sat:
+                    res, s = "sat", s2
+                else:
+                    s3, r3 = run({"auto_config": False, "smt.mbqi": False}, short)
+                    if r3 == z3.unsat:
+                        res = "unsat"
+                    elif r3 == z3.sat or (r3 == z3.unknown and "incomplete" in s3.reason_unknown()):
+                        res, s = "sat", s3
+                        reason = "candidate counter-model (quantifier instantiation saturated without refutation)"
+                    else:
+                        s4, r4 = run({}, timeout_ms)
+                        res = str(r4)
+                        s = s4
+                        if r4 == z3.unknown:
+                            reason = s4.reason_unknown()
+        if res == "sat" and want_model:
+            try:
+                m = s.model()
+                model = {}
+                for d in m.decls():
+                    try:
+                        model[d.name()] = str(m[d])[:400]
+                    except Exception:
+                        pass
+            except Exception:
+                model = None
         return res, model, reason, time.time() - t0
     except Exception as ex:  # solver crash: undecided, never a verdict
         return "error", None, repr(ex)[:300], time.time() - t0
@@ -139,6 +185,9 @@ def discharge(obligations, facts, timeout_ms=20000, seed=0, second=None, jobs=No
     res = list(ex.map(_check_z3, [(t, timeout_ms, seed, True) for t in texts]))
     out = []
     for ob, t, r in zip(obligations, texts, res):
+        f = getattr(ob, "forced", None)
+        if f:
+            r = (f[0], None, f[1], 0.0)
         out.append({"result": r[0], "model": r[1], "reason": r[2], "secs": round(r[3], 3), "backend": "z3-%s" % z3.get_version_string(), "smt_bytes": len(t), "nfacts": ob.nfacts})
     if second:
         t2 = min(timeout_ms, 15000)
